@@ -134,6 +134,9 @@ def tree_hooks(ctx):
             kt = to_sv(k).t
             s_ok = st.fork()
             s_ok.ghost["map_writes"] = s_ok.ghost.get("map_writes", ()) + ((obj.which, obj.node, k, v),)
+            if obj.which == "errors" and "EM" in st.ghost and isinstance(v, AbsErr):
+                em = st.ghost["EM"]
+                s_ok.ghost["EM"] = z3.Store(em, obj.node, z3.Store(em[obj.node], kwkey(kt), v.i + 1))
             from pyvc.interp import assume
             outs = []
             a = assume(I.ctx, s_ok, z3.Not(smt.is_kind(kt, smt.K_LIST, smt.K_DICT)))
@@ -177,7 +180,7 @@ def tree_hooks(ctx):
             m = it.m
             return [(st, IterSpec(n=csize(m.node), elem=lambda i: PyTuple([SV(ckey_at(m.node, i)), TreeV(child_at(m.node, i))])))]
         if isinstance(it, AbsErrors):
-            return [(st, IterSpec(n=z3.Int("n_errors"), elem=lambda i: AbsErr(i)))]
+            return [(st, IterSpec(n=n_errors, elem=lambda i: AbsErr(i)))]
         if isinstance(it, AbsPath):
             return [(st, IterSpec(n=err_plen(it.i), elem=lambda j: SV(err_pelem(it.i, j))))]
         return None
@@ -200,6 +203,38 @@ err_instance = z3.Function("err_instance", smt.I, V)
 err_plen = z3.Function("err_path_len", smt.I, smt.I)
 err_pelem = z3.Function("err_path_elem", smt.I, smt.I, V)
 walknode = z3.Function("tree_walk_node", smt.I, smt.I, V)     # node reached for error i after k path elements
+
+
+n_errors = z3.Int("n_errors")
+EMSort = z3.ArraySort(V, z3.ArraySort(smt.S, smt.I))      # node -> (keyword key -> 1 + index of the error filed there, 0 = none)
+
+
+def kwkey(v):
+    """dict key of a keyword (a str or None) as a string: injective"""
+    return z3.If(smt.kd(v, K_NONE), z3.StringVal(""), z3.Concat(z3.StringVal("s"), smt.sval(v)))
+
+
+def final_node(i):
+    return walknode(i, err_plen(i))
+
+
+class FiledInv(LoopInv):
+    """outer loop of the constructor, after k errors: for every error j < k, the node its path leads to maps
+    its keyword to an error m < k that was filed at the same node under the same keyword"""
+
+    def at(self, I, st, k, spec):
+        j = z3.Int("jf")
+
+        def formula(s):
+            em = s.ghost["EM"]
+            m = em[final_node(j)][kwkey(err_validator(j))] - 1
+            return z3.And(k >= 0, z3.ForAll([j], z3.Implies(z3.And(0 <= j, j < k),
+                                                            z3.And(0 <= m, m < k, final_node(m) == final_node(j),
+                                                                   kwkey(err_validator(m)) == kwkey(err_validator(j))))))
+
+        def havoc(s):
+            s.ghost["EM"] = smt.fresh("EM", EMSort)
+        return {"env": {}, "formula": formula, "havoc": havoc}
 
 
 class AbsErrors:
@@ -355,7 +390,13 @@ class TreeTask(CoreTask):
             obls.append(core.Obligation("%s/F/sum#%d" % (self.name, n), "F", s.pc, goal, note="total_errors == len(self.errors) + sum over every child of len(child)"))
         self._finish(res, ctx, obls)
 
-    def _run_init_safety(self, res):
+    def _run_init_files(self, res):
+        """ErrorTree(errors) files every error where its path says: after the constructor, for every error j the node
+        reached by walking j's path from the root maps j's keyword to an error that was filed at that same node under
+        that same keyword (outer-loop invariant over a ghost map of the nodes' `errors` dicts)"""
+        self._run_init_safety(res, files=True)
+
+    def _run_init_safety(self, res, files=False):
         """ErrorTree(errors) never raises, for any arrival order: paths of hashable elements, keyword a
         str or None; each error is filed under its keyword at the node its path leads to, and that
         node records the error's instance."""
@@ -371,6 +412,12 @@ class TreeTask(CoreTask):
         ii, jj = z3.Ints("ii jj")
         st = State()
         st.unit = unit
+        if files:
+            outer = [n for n in _ast.walk(unit.node) if isinstance(n, _ast.For) and n not in inner]
+            for f in outer:
+                ctx.config["loop_invs"][(unit.key, loop_ordinal(unit, f))] = FiledInv()
+            st.ghost["EM"] = z3.Const("EM0", EMSort)
+            st.pc.append(n_errors >= 0)
         st.pc.extend([z3.ForAll([ii], smt.is_kind(err_validator(ii), K_STR, K_NONE)),
                       z3.ForAll([ii, jj], smt.is_kind(err_pelem(ii, jj), K_STR, K_INT)),
                       z3.ForAll([ii], err_plen(ii) >= 0)])
@@ -382,6 +429,12 @@ class TreeTask(CoreTask):
         def set_attr(st_, obj, attr, v):
             if isinstance(obj, TreeV):
                 s = st_.fork()
+                if attr in ("errors", "_contents"):
+                    # the node's own maps stay abstract (AbsMap); a new `errors` dict is an empty map
+                    if attr == "errors" and "EM" in s.ghost:
+                        s.ghost["EM"] = z3.Store(s.ghost["EM"], obj.t, z3.K(smt.S, z3.IntVal(0)))
+                    s.ghost["attr_writes"] = s.ghost.get("attr_writes", ()) + ((obj.t, attr, v),)
+                    return [(s, ("next", None))]
                 s.heap[("tree", obj.t.get_id(), attr)] = v if attr != "_instance" else None
                 s.ghost["attr_writes"] = s.ghost.get("attr_writes", ()) + ((obj.t, attr, v),)
                 if attr == "_instance":
@@ -398,10 +451,19 @@ class TreeTask(CoreTask):
             if ctl[0] == "raise":
                 obls.append(core.Obligation("%s/S/raise:%s@%s#%d" % (self.name, ctl[1].cls, ctl[1].origin, n), "S", s.pc, False,
                                             note="the constructor raises %s" % ctl[1].cls))
+            elif files:
+                jq = z3.Int("jq")
+                em = s.ghost["EM"]
+                m = em[final_node(jq)][kwkey(err_validator(jq))] - 1
+                obls.append(core.Obligation("%s/F/filed#%d" % (self.name, n), "F", s.pc,
+                                            z3.ForAll([jq], z3.Implies(z3.And(0 <= jq, jq < n_errors),
+                                                                       z3.And(0 <= m, m < n_errors, final_node(m) == final_node(jq),
+                                                                              kwkey(err_validator(m)) == kwkey(err_validator(jq))))),
+                                            note="for every error, the node its path leads to maps its keyword to an error filed at that node under that keyword"))
             else:
                 obls.append(core.Obligation("%s/F/returns#%d" % (self.name, n), "F", s.pc, z3.BoolVal(True), note="constructor completes"))
         self._finish(res, ctx, obls)
 
 
 def tree_tasks(root, timeout_ms=10000):
-    return [TreeTask(root, w, timeout_ms) for w in ("methods", "total_errors", "init_safety")]
+    return [TreeTask(root, w, timeout_ms) for w in ("methods", "total_errors", "init_safety", "init_files")]
